@@ -142,7 +142,7 @@ def run(ctx):
     coords = list(ts.coord_space())
     adjs = list(ts.adj_space())
     paths = list(ts.path_space())
-    per_cfg = 3 if ctx.quick else 12
+    per_cfg = 4 if ctx.quick else 12
     # ---- adjacency region, exhaustive over 9 x 216 --------------------------------
     k = 0
     for ci, cp in enumerate(coords):
@@ -223,10 +223,10 @@ def run(ctx):
         ctx.tally("c06:pairs-covered-permille", int(1000 * cov / tot))
         ctx.tally("c06:factor-value-pairs-covered", cov)
         ctx.note(f"pairwise covering array: {len(cfgs)} configurations cover {cov} of {tot} factor-value pairs")
-    n_rand = 300 if ctx.quick else 6000
+    n_rand = 1200 if ctx.quick else 6000
     rr = np.random.Generator(np.random.PCG64(ctx.seed + 777))
     cfgs = cfgs + [ts.random_params(rr) for _ in range(n_rand)]
-    sizes = [2, 3, 5, 8, 13] if ctx.quick else [2, 3, 4, 5, 8, 11, 13, 16, 20, 30]
+    sizes = [2, 3, 5, 8, 13, 4, 20, 6] if ctx.quick else [2, 3, 4, 5, 8, 11, 13, 16, 20, 30]
     for j, p in enumerate(cfgs):
         if not ctx.mine(j):
             continue
@@ -235,8 +235,9 @@ def run(ctx):
             warnings.simplefilter("ignore")
             tok = ts.build_tokenizer(p)
         n = sizes[j % len(sizes)]
-        if (not ctx.quick) and j % 97 == 0:
+        if j % 97 == 0:
             n = 50
+            ctx.tally("c06:grid-50")
         for (cl, s, e, sol, fam) in mazes_for(rng, n, 2 if ctx.quick else 3):
             g = Graph(cl)
             for kind in ("LatticeMaze", "TargetedLatticeMaze", "SolvedMaze", "SolvedMaze"):
